@@ -6,7 +6,7 @@
       0<=f<6 /\ 0<=l<=30 /\ 0<=k<4^l /\ c = f*2^61 + (2k+1)*4^(30-l). *)
 From Coq Require Import ZArith List Bool Floats Reals.
 From Geo Require Import Base.GoPrim Gen.CellIDFull Model.CellIDTables
-  Base.F64Arith Proofs.C01_Tables Proofs.C01_Algebra Proofs.C01_IJ Proofs.C01_Advance Proofs.C01_Iter Proofs.C01_Point Proofs.C01_Text Proofs.StUV_Mono.
+  Base.F64Arith Proofs.C01_Tables Proofs.C01_Algebra Proofs.C01_IJ Proofs.C01_Advance Proofs.C01_Iter Proofs.C01_Point Proofs.C01_Text Proofs.C01_Hilbert Proofs.StUV_Mono.
 (* the hand models compared with Go by the observer (built with this file: one make target) *)
 From Geo Require Model.CellIDNbr Model.C01Obs.
 From Geo Require Import Model.CellIDText.
@@ -162,6 +162,28 @@ Theorem c01_distance_from_begin_is_index : forall c f l k, rep c f l k ->
   s2_CellID_distanceFromBegin c = index f l k.
 Proof. exact distanceFromBegin_index. Qed.
 Print Assumptions c01_distance_from_begin_is_index.
+
+(** Hilbert continuity (closed): consecutive cells of a level on one face are exactly one step apart in
+    the (i,j) grid of that level (they share an edge); the last cell of a face and the first cell of
+    the next face share an edge in the integer cube model ([share_edge]: two distinct common corners
+    under the exact linear face frames of faceUVToXYZ). *)
+Theorem c01_hilbert_continuity : forall c f l k, rep c f l k -> k + 1 < 4 ^ l ->
+  exists i j o i' j' o',
+    s2_CellID_faceIJOrientation c = (f, i, j, o) /\
+    s2_CellID_faceIJOrientation (s2_CellID_Next c) = (f, i', j', o') /\
+    rep (s2_CellID_Next c) f l (k + 1) /\
+    Z.abs (i / 2 ^ (30 - l) - i' / 2 ^ (30 - l)) + Z.abs (j / 2 ^ (30 - l) - j' / 2 ^ (30 - l)) = 1.
+Proof. exact hilbert_continuity. Qed.
+Print Assumptions c01_hilbert_continuity.
+
+Theorem c01_hilbert_face_to_face : forall c f l, rep c f l (4 ^ l - 1) ->
+  exists i j o i' j' o',
+    s2_CellID_faceIJOrientation c = (f, i, j, o) /\
+    s2_CellID_faceIJOrientation (s2_CellID_NextWrap c) = ((f + 1) mod 6, i', j', o') /\
+    rep (s2_CellID_NextWrap c) ((f + 1) mod 6) l 0 /\
+    share_edge (2 ^ l) f (i / 2 ^ (30 - l)) (j / 2 ^ (30 - l)) ((f + 1) mod 6) (i' / 2 ^ (30 - l)) (j' / 2 ^ (30 - l)).
+Proof. exact face_to_face. Qed.
+Print Assumptions c01_hilbert_face_to_face.
 
 (** points -------------------------------------------------------------------- *)
 Theorem c01_point_leaf_is_valid : forall p, exists f k, 0 <= f < 6 /\ rep (s2_cellIDFromPoint p) f 30 k /\
